@@ -398,7 +398,7 @@ class Lexer:
     def read_escaped_character(self, position: int) -> EscapeSequence:
         """Read escaped character sequence"""
         body = self.source.body
-        value = _ESCAPED_CHARS.get(body[position + 1])
+        value = _ESCAPED_CHARS.get(body[position + 1 : position + 2])
         if value:
             return EscapeSequence(value, 2)
         raise GraphQLSyntaxError(
@@ -554,6 +554,8 @@ def read_16_bit_hex_code(body: str, position: int) -> int:
     """
     # read_hex_digit() returns -1 on error. ORing a negative value with any other
     # value always produces a negative value.
+    if position + 4 > len(body):
+        return -1  # source ends before four characters could be read
     return (
         read_hex_digit(body[position]) << 12
         | read_hex_digit(body[position + 1]) << 8
